@@ -25,6 +25,14 @@ impl<L: Language, N: Analysis<L>> EGraph<L, N> {
         subst: &Subst,
         #[allow(unused)] justification: Option<String>,
     ) -> bool {
+        // Both sides have to mention the same syntactic term for a variable: the names invented for
+        // slots that the bound class treats as redundant are chosen once per variable, not per side.
+        #[cfg(feature = "explanations")]
+        let subst: &Subst = &subst
+            .iter()
+            .map(|(k, v)| (k.clone(), self.synify_app_id(v.clone())))
+            .collect();
+
         let a = pattern_subst(self, from_pat, subst);
         let b = pattern_subst(self, to_pat, subst);
 
